@@ -12,7 +12,7 @@ from ..gen.filters import FilterGen
 from ..gen.render import Renderer, canonical
 from ..ref import npath as NP
 from ..ref import rfc6901 as P
-from ..run import Stats, hyp_run, mix
+from ..run import Stats, hyp_run, mix, rng_for
 from ..strict import canon, short, walk
 
 import jsonpath
@@ -167,7 +167,7 @@ def t_random(seed, n):
 
     def body(x):
         doc, s = x
-        rng = random.Random(s)
+        rng = rng_for(s)
         stats.case()
         use_filter = rng.random() < 0.3
         fg = FilterGen(rng, doc, depth=2)
